@@ -3167,6 +3167,16 @@ class KmipEngine(object):
                 "No data to be MACed"
             )
 
+        if managed_object._object_type not in [
+            enums.ObjectType.SYMMETRIC_KEY,
+            enums.ObjectType.SECRET_DATA
+        ]:
+            raise exceptions.PermissionDenied(
+                "The requested MAC key is not a symmetric key or secret "
+                "data. Only symmetric keys and secret data can be used to "
+                "compute a MAC."
+            )
+
         if managed_object.state != enums.State.ACTIVE:
             raise exceptions.PermissionDenied(
                 "Object is not in a state that can be used for MACing."
